@@ -31,7 +31,7 @@ ASSUMPTIONS = [
     "whose determinant sign differs from the sign of a*d, is known finding KF-ROUNDSHAPE-TRANSFORMED (pinned by "
     "test_paths.py::test_issue_mk_1362); the other observations of the same shape stay in scope",
 ]
-TOLERANCES = {"point": "1e-9 * S(image)", "arc point": "(1e-9 + 1e-15 * (ratio * cond)^2) * S(image) + closure_gap(arc) * 2|M| * ratio * cond (closure gap: how far the arc misses its own stored end points, non-zero for scaled-up radii)"}
+TOLERANCES = {"point": "1e-9 * S(image)", "arc point": "(1e-9 + 1e-15 * (ratio * cond)^2) * S(image) + 2 * closure_gap(arc) * 2|M| * ratio * cond (closure gap: how far the arc misses its own stored end points, non-zero for scaled-up radii)"}
 KINDS = ["L", "Q", "C", "A"]
 MANDATORY_LABELS = {"quick": ["seg:%s x %s" % (k, m) for k in KINDS for m in gen.MATRIX_CLASSES] + ["shape:%s" % s for s in ("rect", "rrect", "circle", "ellipse", "line", "polyline", "polygon")] + ["path:prog", "path:parse", "path:subpath"]}
 MANDATORY_LABELS["thorough"] = MANDATORY_LABELS["quick"]
@@ -158,7 +158,8 @@ def compare_seg(o, orig, image, M, what, S=None):
         tol = (1e-9 + 1e-15 * amp * amp) * Simg
         # an arc whose stored end points miss its own ellipse (scaled-up radii: the centre is the square root of rounding
         # noise) takes its start angle from an off-ellipse point, and that projection does not commute with affine maps
-        tol += closure_gap(orig) * max(1.0, gen.mat_norm(M) * 2.0) * max(1.0, amp)
+        # (once for the start angle of the original, once for that of the image)
+        tol += 2.0 * closure_gap(orig) * max(1.0, gen.mat_norm(M) * 2.0) * max(1.0, amp)
     for t, w, q in mapped:
         if not core.pclose(w, q, tol):
             return o.violation("%s:point:%s" % (what, k), "t=%r: image %r, matrix applied to the original point gives %r (tolerance %.3g)" % (t, q, w, tol))
